@@ -321,17 +321,21 @@ def find_operators(expr: sympy.Expr) -> list[OperatorType]:
     """
     # replace n -> a† * a and convert number ordered forms to expressions.
     # Number operator of ladder operators need to be included separately.
-    expr = expr.doit()
+    # The expression as written is searched too: evaluating it may make a term vanish
+    # (e.g. Dagger(f) * N_f for a fermion) together with the operators it contains.
+    exprs = (expr, expr.doit())
     return sorted(
         set().union(
             (
                 op
+                for e in exprs
                 for particle, generator in zip(operator_types, generator_types)
-                for op in (generator(atom.name) for atom in expr.atoms(particle))
+                for op in (generator(atom.name) for atom in e.atoms(particle))
             ),
             (
                 LadderOp(atom.name)
-                for atom in expr.atoms(NumberOperator)
+                for e in exprs
+                for atom in e.atoms(NumberOperator)
                 if atom.args[1].name == "LadderOp"
             ),
         ),
